@@ -460,7 +460,11 @@ func runCheck(prop, tier string) int {
 					lmu.Lock()
 					silent := time.Since(lastLine)
 					lmu.Unlock()
-					if silent > 600*time.Second {
+					limit := 600 * time.Second
+					if tier == "quick" {
+						limit = 150 * time.Second
+					}
+					if silent > limit {
 						hung = true
 						cmd.Process.Kill()
 						return
@@ -537,7 +541,11 @@ func runCheck(prop, tier string) int {
 		os.WriteFile(path, b, 0o644)
 		cmd := exec.Command(self, "replay", path)
 		cmd.Env = append(os.Environ(), "GOMAXPROCS=2")
-		outb, err := runWithTimeout(cmd, 30*time.Minute)
+		aloneLimit := 30 * time.Minute
+		if tier == "quick" {
+			aloneLimit = 5 * time.Minute
+		}
+		outb, err := runWithTimeout(cmd, aloneLimit)
 		ee, isExit := err.(*exec.ExitError)
 		if err == nil || (isExit && (ee.ExitCode() == 0 || ee.ExitCode() == 1)) {
 			// survived alone: the death did not reproduce -> harness trouble (non-deterministic death)
